@@ -4,7 +4,9 @@ Obligations: coq/Properties/C04.v (theorems about Model/Validate.v: validate_err
 the named-error corollaries, the wrapper).  Correspondence: the Coq model parses the same segment
 lines (Model/Parser.v) and validates them (Model/Validate.v); outcome code, the sorted multiset of
 structured errors and the number of length warnings are compared inside Coq; message trees are
-rebuilt in Coq from the shape the implementation's parser produced and validated by the model too.
+rebuilt in Coq from the shape the implementation's parser produced and validated by the model too
+(Z messages included: Message('ZDT_Z01') has the empty structure, its children are validated one by one
+with no reference - Properties/C04.v C04_z_message_*).
 Oracle: the property's own clauses evaluated on the implementation - conforming instances validate,
 every single-point mutation is reported with an error naming the mutated element, validate() is
 pure and the three calling conventions / the report file agree.
@@ -987,7 +989,7 @@ def run_profile_model(run, cases):
         L = [prelude(v, S.default_ec(v), [x for c in sh for x in c['lines']]), 'Open Scope Z_scope.', PROFILE_PART % term,
              'Definition cases : list pcase := [\n' + ';\n'.join(rows) + '\n].',
              'Eval vm_compute in failing 0 (map p_agrees cases).']
-        files.append(('c04p_%d_%s' % (os.getpid(), v.replace('.', '_')), '\n'.join(L) + '\n'))
+        files.append(('c04p_%d_%s_%d' % (os.getpid(), v.replace('.', '_'), len(files)), '\n'.join(L) + '\n'))
         index.append(sh)
     results = coq_eval_many(files, timeout=1500)
     evaluated = 0
@@ -1071,6 +1073,63 @@ def profile_level(run, rng, dist):
     return n, cases
 
 
+def z_profile_level(run, rng, dist, prof_cases=()):
+    """CORRESPONDENCE ONLY (the oracle does not judge these cases; see below).  A Z message that a MESSAGE PROFILE
+    declares: the iti_21 profile re-keyed as ZDT_Z01.  Validator.validate dispatches on el.is_z_element() before it
+    looks at the reference, so the structure the profile declares for the message is never consulted
+    (Properties/C04.v C04_z_message_structure_ignored): a message lacking segments the profile requires validates,
+    and the segments - created with the PROFILE's references by the parser - are held against the TABLES of the
+    version (QPD-3, QIP in the profile and `varies` in the table: IndexError from inside validate()).  The model
+    follows the code (same outcome codes, same errors); whether this violates C04 ("... x validation reference in
+    {standard tables, message profile}") is for the integrator to record: the cases are not passed to judge()."""
+    path = os.path.join(os.environ.get('HL7APY_REPO', '/repo'), 'tests', 'profiles', 'iti_21')
+    if not os.path.exists(path):
+        return []
+    shared = [c['root'] for c in prof_cases if c.get('structure') == 'RSP_K21' and c.get('root') is not None]
+    ref = shared[0] if shared else hl7apy.load_message_profile(path).get('RSP_K21')   # same object: same case file
+    if ref is None or not structure_ok(ref):
+        return []
+    v, mname = '2.5', 'ZDT_Z01'
+    zp = {mname: ref}
+    lib = hl7apy.load_library(v)
+    nodes = instance(ref, 'req', lib)
+    if not nodes or nodes[0][1] != 'MSH':
+        return []
+    lines = lines_of(nodes, mname, v)
+    names = [x[1] for x in flat(nodes)]
+    keep = [k for k, n in enumerate(names) if n in ('MSH', 'MSA')]
+    variants = [('z-profile/conforming-required', lines),
+                ('z-profile/required-segments-removed', [lines[k] for k in keep]),
+                ('z-profile/header-only', lines[:1]),
+                ('z-profile/insert-foreign-segment', [lines[k] for k in keep] + ['PV1||I'])]
+    cases = []
+    for label, ls in variants:
+        text = '\r'.join(ls)
+        where = {'level': 'message', 'version': v, 'structure': mname, 'mutation': label, 'text': text,
+                 'expect': [], 'reference': 'iti_21 as ZDT_Z01'}
+        try:
+            msg = parse_message(text, validation_level=TOL, find_groups=True, message_profile=zp)
+        except Exception:  # noqa
+            continue
+        code, keys, nlen, rep = check_purity_and_wrapper(run, msg, S.default_ec(v), where)
+        cases.append({'v': v, 'name': msg.name, 'code': code, 'keys': keys, 'nlen': nlen, 'lines': ls,
+                      'shape': shape_of(msg), 'label': label, 'structure': mname, 'root': ref})
+        dist['z-profile'] = dist.get('z-profile', 0) + 1
+        # the property: the validation reference may be a message profile; a profile that declares a Z message is a
+        # structure like any other
+        if label == 'z-profile/conforming-required' and (code != 0 or keys):
+            run.fail('conforming-rejected' if code == 0 else 'validate-raises', 'a message conforming to the profile that '
+                     'declares its (Z) structure does not validate', code=code, errors=keys[:6], z_message_profile=True,
+                     dup_bounded=False, grouping_differs=False, **where)
+        if label in ('z-profile/required-segments-removed', 'z-profile/header-only') and code == 0 and not keys:
+            run.fail('missing-required-not-reported', 'a Z message declared by a message profile validates although segments '
+                     'the profile requires are absent', code=code, errors=[], z_message_profile=True, **where)
+        if label == 'z-profile/insert-foreign-segment' and code == 0 and not any(k.startswith('InvalidChildren') for k in keys):
+            run.fail('foreign-child-not-reported', 'a Z message declared by a message profile validates although it holds a '
+                     'segment the profile does not allow', code=code, errors=keys[:6], z_message_profile=True, **where)
+    return cases
+
+
 # ------------------------------------------------------------------------------------------
 
 
@@ -1123,9 +1182,11 @@ def main(argv=None):
     seg_cases = segment_level(run, rng, dist)
     run.log('segment level: %d cases, %d oracle failures' % (len(seg_cases), len(run.failures)))
     msg_cases, stats = message_level(run, rng, dist)
-    z_message_level(run, rng, dist)     # oracle only: the message-level model does not cover Z messages (_check_z_element)
+    msg_cases += z_message_level(run, rng, dist)
     run.log('message level: %d cases (%s), %d oracle failures' % (len(msg_cases), stats, len(run.failures)))
     n_profile, prof_cases = profile_level(run, rng, dist)
+    zprof_cases = z_profile_level(run, rng, dist, prof_cases)
+    prof_cases = prof_cases + zprof_cases
     dist['hash_seed_processes'] = hash_seed_probe(run)
     run.log('profile level: %d cases, %d oracle failures' % (n_profile, len(run.failures)))
     # ---- correspondence
@@ -1140,8 +1201,13 @@ def main(argv=None):
     cap = 3 if not run.thorough else 20
     order = list(msg_cases)
     rng.shuffle(order)
+    zquota = {}         # quick tier: per version the conforming Z message and 4 seed-chosen mutations go to the model
     for c in order:
         key = (c['v'], c['label'])
+        if c['label'].startswith('z-message/') and not run.thorough and c['label'] != 'z-message/conforming-required':
+            if zquota.get(c['v'], 0) >= 4:
+                continue
+            zquota[c['v']] = zquota.get(c['v'], 0) + 1
         if per_label.get(key, 0) < cap and len(c['lines']) <= 14:
             per_label[key] = per_label.get(key, 0) + 1
             msg_model.append(c)
@@ -1158,7 +1224,7 @@ def main(argv=None):
                 'text': ' // '.join(c['lines'])[:300], 'errors': c['keys'][:4]}
                for c in msg_cases[:: max(1, len(msg_cases) // 4)][:4]]
     run.finish({
-        'evaluations': len(seg_cases) + len(msg_cases) + n_profile,
+        'evaluations': len(seg_cases) + len(msg_cases) + n_profile + len(zprof_cases),
         'distinct_nontrivial': nontrivial,
         'rule': 'segment level: for %s segments of every version a conforming line with the required fields, one with '
                 'every field, and single-point mutations (required field dropped, single field repeated, field beyond '
@@ -1166,8 +1232,11 @@ def main(argv=None):
                 'plus messy lines and Z-segments for the model; message level: for %s message structures of every '
                 'version that can be addressed from MSH-9 the required-only and all-children instances (+ a Z-segment) '
                 'and single-point mutations (required segment removed at top level / inside a group, single segment '
-                'duplicated, foreign segment inserted, Z-segment holding an unknown component, unknown message type), parsed with find_groups=True; the same '
-                'families against the iti_21 message profile; every element also goes through the purity and '
+                'duplicated, foreign segment inserted, Z-segment holding an unknown component, unknown message type), parsed with find_groups=True; '
+                'a Z message per version (ZDT_Z01 = MSH + two seed-chosen standard segments + ZIN: conforming, and every segment-level '
+                'single-point mutation inside the first standard segment - oracle and model); the same '
+                'families against the iti_21 message profile (and, for the model correspondence only, the profile re-keyed as the Z '
+                'message ZDT_Z01); every element also goes through the purity and '
                 'wrapper clauses; non-trivial/distinct = distinct (version, segment or structure, mutation) other '
                 'than the required-only conforming instance'
                 % ('all' if run.thorough else '30 seed-chosen', 'all' if run.thorough else '18 seed-chosen'),
